@@ -32,7 +32,7 @@ THEOREMS = {
             "clusters_chunked_eq_batch"],
     "C07": ["fit_discards", "resetFor_congr", "sameConfig_fresh", "fit_after_history_eq_fresh",
             "fit_then_predictExp_congr", "fit_norm_congr", "npBinarize_congr", "impFit_none_congr", "impFit_neighbors_congr",
-            "impFit_lsh_congr", "impFit_tree_congr", "impFit_clusters_congr"],
+            "impFit_lsh_congr", "impFit_tree_congr", "impFit_clusters_congr", "facade_fit_discards"],
     "C08": ["keys_eq_arms", "added_immediately", "removed_never_returns", "arms_unchanged_by_training", "unwrap_shape",
             "predictExp_keys", "predict_mem", "argmaxFirst_mem", "draw_length", "chunk_rows",
             "predictExp_keys_greedy", "assembleRows_keys", "predictExp_keys_linear", "predictExp_keys_all", "fit_wf",
@@ -60,7 +60,8 @@ THEOREMS = {
     "C14": ["fit_binarizer_once", "partialFit_binarizer_once", "binarize_spec", "binarize_noop_ctxBin", "np_binarize_once",
             "addArm_new_binarizer", "tree_binarizer_twice_counterexample",
             "stepOp_binarizer_once", "stepOp_binz", "run_binarizer_once", "run_binarizer_once_state",
-            "chunked_binarizer_once", "rowsOf_converted", "convRel_run", "thompson_counts_binarized"],
+            "chunked_binarizer_once", "rowsOf_converted", "convRel_run", "thompson_counts_binarized",
+            "facade_binarizer_once"],
     "C15": ["sim_distance_lookup", "slice_row", "sim_selection_eq_library", "sim_cache_correct", "sim_cache_fresh",
             "shared_cache_counterexample", "radius_exact"],
     "C16": ["split_partition", "random_split_partition", "batches_cover_once", "stats_additive", "min_le_mean_le_max",
@@ -96,14 +97,14 @@ IMPORTS = {
     "C04": ["MabModel.Props.C04"],
     "C05": ["MabModel.Props.C05", "MabModel.Props.C05b", "MabModel.Props.C05c", "MabModel.Props.C05d"],
     "C06": ["MabModel.Props.C06", "MabModel.Props.C06b", "MabModel.Props.C06c"],
-    "C07": ["MabModel.Props.C07", "MabModel.Props.C05c", "MabModel.Props.C07b"],
+    "C07": ["MabModel.Props.C07", "MabModel.Props.C05c", "MabModel.Props.C07b", "MabModel.Props.FacadeLift"],
     "C08": ["MabModel.Props.C08", "MabModel.Props.C08b", "MabModel.Props.C08c"],
     "C09": ["MabModel.Props.C09", "MabModel.Props.C09b"],
     "C10": ["MabModel.Props.C10", "MabModel.Props.C10b"],
     "C11": ["MabModel.Props.C11"],
     "C12": ["MabModel.Props.C12", "MabModel.Props.C12b"],
     "C13": ["MabModel.Props.C13", "MabModel.Props.C13b"],
-    "C14": ["MabModel.Props.C14", "MabModel.Props.C14b"],
+    "C14": ["MabModel.Props.C14", "MabModel.Props.C14b", "MabModel.Props.FacadeLift"],
     "C15": ["MabModel.Props.C15"],
     "C16": ["MabModel.Props.C16", "MabModel.Props.C16b"],
     "C17": ["MabModel.Props.C17", "MabModel.Props.C17b"],
